@@ -38,10 +38,10 @@ func Run(cfg hx.Config) (*hx.Meta, error) {
 	r := hx.NewRand(cfg.Seed)
 	cat := ga.NewCatalogue()
 	var shapes []*ga.Type
-	pool, nmut := 16, 2
+	pool, nmut, ntwin := 16, 2, 8
 	if cfg.Tier == "thorough" {
 		shapes = cat.Shapes(r, 2, 1500)
-		pool, nmut = 32, 6
+		pool, nmut, ntwin = 32, 6, 20
 	} else {
 		// quick: every leaf and every depth-1 shape, a seeded slice of the depth-2 shapes, random deeper ones
 		shapes = cat.Shapes(r, 1, 40)
@@ -50,6 +50,11 @@ func Run(cfg hx.Config) (*hx.Meta, error) {
 		shapes = append(shapes, d2[:120]...)
 	}
 	shapes = ga.Dedup(append(extraTypes(cat), shapes...))
+	// round 5: named types that carry String()/Error() methods (fmt calls them under every verb but %#v),
+	// and maps whose key type owns pointers (several keys of one map may print the same text)
+	shapes = ga.Dedup(append(shapes, append(ga.StringerShapesR5(), ga.PtrKeyTypesR5(cat)...)...))
+	// ... and named structs whose GoString method IS the derived function (%#v calls it on keys and elements)
+	shapes = ga.Dedup(append(shapes, ga.GoStringerShapesR5(cat)...))
 	// round 4: generic instances and aliases; the members of a family are generated in one package
 	family := map[string]int{}
 	for fi, fam := range ga.HAFamilies(cat) {
@@ -182,7 +187,19 @@ func Run(cfg hx.Config) (*hx.Meta, error) {
 		tcs := make([]*tcase, len(p.types))
 		for i, t := range p.types {
 			tc := &tcase{idx: p.idx[i], t: t}
-			vals := append(append([]*ga.Val{}, corpusVals[t.Go(0)]...), gen.Pool(t, map[int]*ga.Type{}, 3)...)
+			var pv []*ga.Val
+			if ga.HasPtrKeyR5(t) {
+				// round 5: maps with pointer-owning keys also get several keys with EQUAL targets (different addresses)
+				pv = ga.PtrKeyPoolR5(gen, t, 3, ntwin)
+				for _, v := range pv {
+					if ga.HasTwinKeysR5(v) {
+						meta.CountSafe("values/map-with-keys-equal-by-content")
+					}
+				}
+			} else {
+				pv = gen.Pool(t, map[int]*ga.Type{}, 3)
+			}
+			vals := append(append([]*ga.Val{}, corpusVals[t.Go(0)]...), pv...)
 			// round 4: copies of pool values whose strings (at every position that is not a map key) are
 			// replaced by strings that mix line ends, backquotes, carriage returns, invalid UTF-8, NUL, BOM, …
 			if nv := len(vals); nv > 0 {
@@ -248,8 +265,14 @@ func Run(cfg hx.Config) (*hx.Meta, error) {
 		stage2(p, tcs, meta)
 		var obs strings.Builder
 		for _, tc := range tcs {
+			// a map whose key type owns pointers is outside Go/Val.v's has_type (keys compared by content):
+			// those types are judged with the typing and the structural equality of GoStr/PtrKeys.v
+			kind := "gs"
+			if ga.HasPtrKeyR5(tc.t) {
+				kind = "gsk"
+			}
 			for j, v := range tc.vals {
-				fmt.Fprintf(&obs, "(gs %s %s %s %s)\n", tc.t.Sexp(), v.Sexp(), tc.sx[j], tc.rt[j])
+				fmt.Fprintf(&obs, "(%s %s %s %s %s)\n", kind, tc.t.Sexp(), v.Sexp(), tc.sx[j], tc.rt[j])
 				if j == 1 {
 					meta.Sample(hx.Truncate(tc.t.Go(0)+" :: "+strings.ReplaceAll(tc.text[j], "\n", "; "), 400))
 				}
